@@ -635,7 +635,10 @@ func (h *harness) exec(ctx context.Context, n *NodeSpec, arg any, anyStyle bool)
 		simrt.Emit(simrt.Event{Kind: "nested_start", N: n.ID, V: v, I: item + 1, S1: fmt.Sprint(o.Nested - 1)})
 		saved := *st // the nested run may be a re-entrant run of this very node object
 		var nerr error
-		if st.visits < 8 { // (a shrink candidate may nest without end; the model calls such a scenario too long)
+		if st.visits < 8 { // (a shrink candidate may nest without end; the model stops at the same point)
+			if o.Nested-1 == n.ID {
+				simrt.Locked(func() { st.open = false }) // the nested run opens a visit of its own
+			}
 			_, nerr = flyt.Run(ctx, h.nodes[o.Nested-1], h.store)
 		}
 		if o.Nested-1 == n.ID {
@@ -877,8 +880,8 @@ type zst2 struct{}
 type zst3 struct{}
 
 func zPrep(k int, s *flyt.SharedStore) (any, error) { return zstHarness.prep(zstSpec[k], s) }
-func zExec(k int, p any) (any, error) {
-	v, _, err := zstHarness.exec(context.Background(), zstSpec[k], p, true)
+func zExec(ctx context.Context, k int, p any) (any, error) {
+	v, _, err := zstHarness.exec(ctx, zstSpec[k], p, true)
 	return v, err
 }
 func zPost(k int, s *flyt.SharedStore, p, e any) (flyt.Action, error) {
@@ -886,24 +889,42 @@ func zPost(k int, s *flyt.SharedStore, p, e any) (flyt.Action, error) {
 }
 
 func (*zst0) Prep(ctx context.Context, s *flyt.SharedStore) (any, error) { return zPrep(0, s) }
-func (*zst0) Exec(ctx context.Context, p any) (any, error)               { return zExec(0, p) }
+func (*zst0) Exec(ctx context.Context, p any) (any, error)               { return zExec(ctx, 0, p) }
 func (*zst0) Post(ctx context.Context, s *flyt.SharedStore, p, e any) (flyt.Action, error) {
 	return zPost(0, s, p, e)
 }
 func (*zst1) Prep(ctx context.Context, s *flyt.SharedStore) (any, error) { return zPrep(1, s) }
-func (*zst1) Exec(ctx context.Context, p any) (any, error)               { return zExec(1, p) }
+func (*zst1) Exec(ctx context.Context, p any) (any, error)               { return zExec(ctx, 1, p) }
 func (*zst1) Post(ctx context.Context, s *flyt.SharedStore, p, e any) (flyt.Action, error) {
 	return zPost(1, s, p, e)
 }
 func (*zst2) Prep(ctx context.Context, s *flyt.SharedStore) (any, error) { return zPrep(2, s) }
-func (*zst2) Exec(ctx context.Context, p any) (any, error)               { return zExec(2, p) }
+func (*zst2) Exec(ctx context.Context, p any) (any, error)               { return zExec(ctx, 2, p) }
 func (*zst2) Post(ctx context.Context, s *flyt.SharedStore, p, e any) (flyt.Action, error) {
 	return zPost(2, s, p, e)
 }
 func (*zst3) Prep(ctx context.Context, s *flyt.SharedStore) (any, error) { return zPrep(3, s) }
-func (*zst3) Exec(ctx context.Context, p any) (any, error)               { return zExec(3, p) }
+func (*zst3) Exec(ctx context.Context, p any) (any, error)               { return zExec(ctx, 3, p) }
 func (*zst3) Post(ctx context.Context, s *flyt.SharedStore, p, e any) (flyt.Action, error) {
 	return zPost(3, s, p, e)
+}
+
+// Value-type nodes: a node need not be a pointer. valNode(0) is the zero value
+// of its type - a perfectly good node, and not "no node". Like the zero-size
+// types they carry no state and find their spec through a package variable.
+type valNode int
+
+var valSpec [4]*NodeSpec
+
+func (v valNode) Prep(ctx context.Context, s *flyt.SharedStore) (any, error) {
+	return zstHarness.prep(valSpec[v], s)
+}
+func (v valNode) Exec(ctx context.Context, p any) (any, error) {
+	r, _, err := zstHarness.exec(ctx, valSpec[v], p, true)
+	return r, err
+}
+func (v valNode) Post(ctx context.Context, s *flyt.SharedStore, p, e any) (flyt.Action, error) {
+	return zstHarness.post(valSpec[v], s, p, e, false)
 }
 
 func baseOpts(n *NodeSpec, form string) []flyt.NodeOption {
@@ -1275,6 +1296,7 @@ func (h *harness) buildBatch(n *NodeSpec) flyt.Node {
 func (h *harness) build() {
 	zstHarness = h
 	zstSpec = [4]*NodeSpec{}
+	valSpec = [4]*NodeSpec{}
 	h.nodes = make([]flyt.Node, len(h.sc.Nodes))
 	for i, n := range h.sc.Nodes {
 		c := cb{h: h, n: n}
@@ -1299,6 +1321,17 @@ func (h *harness) build() {
 			} else {
 				h.nodes[i] = &ovrNode{baseWrap: bw, cb: c, retrym: retrym{n}}
 			}
+		case "val":
+			k := 0
+			for k < len(valSpec) && valSpec[k] != nil {
+				k++
+			}
+			if k == len(valSpec) {
+				h.nodes[i] = &plainNode{c}
+				break
+			}
+			valSpec[k] = n
+			h.nodes[i] = valNode(k)
 		case "zst":
 			k := 0
 			for k < len(zstSpec) && zstSpec[k] != nil {
